@@ -123,12 +123,16 @@ def all_eq(xs, ys):
     return z3.And(*[eq(a, b) for a, b in zip(xs, ys)]) if xs else z3.BoolVal(True)
 
 
-def abstract_ws2d(it, record=None):
+def abstract_ws2d(it, record=None, shift=None):
     """Callee abstraction: ws2d(y, lmda, w) becomes an uninterpreted family WS_i(y masked by w, lmda, w), i < n (DESIGN 4.2).
 
     The solution of (W + lam D'D) z = W y depends on y only through W y (C01), so cells of zero weight are masked to 0.
     Sound for proving equalities between two executions (congruence); a 'sat' under the abstraction is only a candidate.
-    record: list receiving one dict per call (y, lam, w, z) - used to instantiate the ws2d lemmas of C06."""
+    record: list receiving one dict per call (y, lam, w, z) - used to instantiate the ws2d lemmas of C06.
+    shift: a term c - the call is rewritten with ws2d's offset commutation (C06 L1) applied eagerly:
+    ws2d(y, lam, w) = WS(y - c masked, lam, w) + c. With Arith.factor_shift = c (differences and merges of shifted values are
+    built from their unshifted parts) the second execution of an offset pair then builds the same terms as the first one
+    wherever the code is offset-invariant."""
     def f(interp, st, args, kwargs):
         y, lam, wv = args
         n = y.shape[0]
@@ -137,12 +141,16 @@ def abstract_ws2d(it, record=None):
         my = []
         for a, b in zip(ws, ys):
             zero = interp.A.cmp("==", a, 0)
+            if shift is not None:
+                b = interp.A.sub(b, shift)
             my.append(interp.A.ite(zero, 0, b) if not isinstance(zero, bool) else (0 if zero else b))
         vec = my + [lam] + ws
         if any(V.is_nonfinite(v) for v in vec):
             raise Unsupported("non-finite argument to abstracted ws2d")
         targs = [V.to_real(V.num_of_bool(v)) for v in vec]
         cells = [interp.A.uf(f"WS{n}_{i}", 2 * n + 1)(*targs) for i in range(n)]
+        if shift is not None:
+            cells = [c_ + V.to_real(shift) for c_ in cells]
         interp.uf_ws2d_calls = getattr(interp, "uf_ws2d_calls", 0) + 1
         if record is not None:
             record.append({"y": [V.to_real(V.num_of_bool(v)) for v in ys], "lam": V.to_real(V.num_of_bool(lam)),
